@@ -301,6 +301,11 @@ class Gen:
             q = {"distinct": r.random() < 0.3, "star": not pv or r.random() < 0.3, "proj": [], "from": [], "fromnamed": [], "p": inner, "group": [], "order": [], "limit": -1}
             if not q["star"]:
                 q["proj"] = [{"k": "VAR", "v": c, "as": c} for c in r.sample(pv, r.randint(1, min(2, len(pv))))]
+                hidden = [v for v in pv if v not in {x["v"] for x in q["proj"]}]
+                if hidden and not q["distinct"] and r.random() < 0.6:
+                    # ORDER BY a variable that is not projected, with a LIMIT that cuts: the sort must happen before the projection
+                    q["order"] = [{"v": r.choice(hidden), "d": r.choice(["asc", "desc"])}]
+                    q["limit"] = r.choice([1, 1, 2, 3])
             return {"t": "join", "ps": [{"t": "sub", "q": q}]}
         if op == "group":
             return {"t": "join", "ps": [inner, self.bgp(1)]}
